@@ -3,6 +3,7 @@ package extractor
 import (
 	"fmt"
 	"net/url"
+	"strings"
 
 	"github.com/internetarchive/Zeno/pkg/models"
 )
@@ -24,8 +25,8 @@ func resolveURL(URL string, item *models.Item) (absolute string, err error) {
 		}
 	}
 
-	// Parse the URL to resolve.
-	link, err := url.Parse(URL)
+	// Parse the URL to resolve, without the ASCII whitespace that may surround an attribute value.
+	link, err := url.Parse(strings.Trim(URL, " \t\n\r\f"))
 	if err != nil {
 		return "", fmt.Errorf("invalid URL %q: %w", URL, err)
 	}
